@@ -724,7 +724,8 @@ impl UnknownTracer {
         Ok(Field {
             name: self.name.to_owned(),
             data_type: DataType::Null,
-            nullable: self.nullable,
+            // a Null field is always nullable (as in PrimitiveTracer::to_field)
+            nullable: true,
             metadata: HashMap::new(),
         })
     }
